@@ -304,6 +304,7 @@ static bool exec_sem(const std::string& prim, int ex, vt::Rng& r) {
     bool ooo = prim == "semooo";
     uint64_t init = r.below(3);
     semaphore sem(init, !ooo);
+    vtp::reg().set(&sem, 200);
     int nth = 2 + (int)r.below(g_threads - 1);
     int nvc = 1 + (int)r.below(g_vcpus);
     bool with_intr = r.coin(40);
